@@ -41,6 +41,17 @@ CHECKS = {
     note="Trusted: as C13, plus: node identity modelled by integers; parse_anything returns the given nodes for Node/Wikicode values. "
          "String-target edits are validated (oracle), not modelled. No axioms.",
     technique="Coq proof (composition of C13 over operation sequences) + model/implementation correspondence on real pages"),
+ "C20": dict(
+    category="proof",
+    text="Theorems (Coq, all strings, any isspace/upper with isspace(' ')=true): matches is the kernel of a normal form, hence "
+         "reflexive, symmetric, transitive; it ignores surrounding whitespace, underscores versus spaces and the case of the first "
+         "character, and nothing else (iff-characterisation); an iterable matches iff some element does. Tied to /repo by running "
+         "Wikicode.matches and the extracted model (fed with the implementation's strip_code output) on generated name pairs, and by "
+         "the property oracle incl. str/node/Wikicode agreement and markup removal.",
+    design_ref="DESIGN.md section 5, C20",
+    note="Trusted: Coq kernel; extraction + driver; harness; strip_code is abstract (its output is the model's input); "
+         "isspace/upper tables dumped from CPython. No axioms.",
+    technique="Coq proof (kernel of a normalising function; list induction for strip) + model/implementation correspondence"),
 }
 
 NOT_YET = {}
